@@ -36,7 +36,7 @@ def _ops():
         st.tuples(st.just("set"), _i, st.integers(0, 6), _o, st.sampled_from(["attr", "update"])),
         st.tuples(st.just("inst_const"), _i),
         # a reference (a Parameter of another object) assigned to the constant allow_refs parameter: refused like any value
-        st.tuples(st.just("set_ref"), _i, st.sampled_from(["attr", "update"])),
+        st.tuples(st.just("set_ref"), _i, st.sampled_from(["attr", "update", "attr_nothing_yet", "update_nothing_yet"])),
         # ... and the source of such a reference changes later
         st.tuples(st.just("src_bump"), _o),
         # a callback run by param.trigger tries to assign a constant of the same object
@@ -49,6 +49,10 @@ def _ops():
         st.tuples(st.just("cls_set"), st.integers(0, 2), st.integers(0, 4), _o),
         st.tuples(st.just("enter"), _i),
         st.tuples(st.just("exit"), st.booleans()),
+        # a watcher of the `constant` flag itself (what='constant') that raises when the flag is lowered / raised
+        st.tuples(st.just("flag_watcher"), _i, st.sampled_from(["c", "cn", "name"]), st.sampled_from(["lowered", "raised"])),
+        # the object is initialized a second time with a keyword that is rejected
+        st.tuples(st.just("reinit_bad"), _i),
         st.tuples(st.just("read"), _i, st.integers(0, 4)),
     )
 
@@ -378,11 +382,20 @@ def execute(case):
             rec = insts[idx]
             if idx in [b[1] for b in stack]:
                 continue            # inside its own edit_constant block the link would be a legitimate edit
+            ref = src.param.v
+            if op[2].endswith("_nothing_yet"):
+                # a reference that yields no value right now (its function skips until the source has been bumped)
+                def later(v):
+                    if not (isinstance(v, list) and v and isinstance(v[0], int) and v[0] >= 100):
+                        raise param.Skip
+                    return v
+                ref = param.bind(later, src.param.v)
+                res.label("reference_that_yields_nothing_yet_assigned_to_constant")
             try:
-                if op[2] == "attr":
-                    rec["obj"].ca = src.param.v
+                if op[2].startswith("attr"):
+                    rec["obj"].ca = ref
                 else:
-                    rec["obj"].param.update(ca=src.param.v)
+                    rec["obj"].param.update(ca=ref)
             except TypeError:
                 pass
             else:
@@ -460,13 +473,55 @@ def execute(case):
                     res.fail("C14.class_constant_blocked", f"{tag}: class-level set did not install the object")
                 if cls is K2:
                     state["sub_cls_set"] = True
+        elif kind == "flag_watcher":
+            if not insts or stack:
+                continue
+            rec = insts[op[1] % len(insts)]
+            if rec.get("flag_watcher"):
+                continue
+            want_flag = op[3] == "raised"
+
+            def flag_cb(event, want_flag=want_flag):
+                if event.new is want_flag:
+                    raise _Boom("watcher of the constant flag")
+            rec["obj"].param.watch(flag_cb, [op[2]], what="constant")
+            rec["flag_watcher"] = True
+            state["copy"] = True
+            res.label("raising_watcher_of_constant_flag:" + op[3])
+        elif kind == "reinit_bad":
+            if not insts or stack:
+                continue
+            rec = insts[op[1] % len(insts)]
+            try:
+                rec["obj"].__init__(n="not a number")
+            except ValueError:
+                pass
+            else:
+                res.fail("C14.harness", f"{tag}: the invalid keyword was accepted")
+            # (a second initialization legitimately gives the object a new name and fresh copies of the class defaults;
+            #  what it must not do, having failed, is leave the constants assignable)
+            for n in CONST + ("ic",):
+                rec["held"][n] = getattr(rec["obj"], n)
+            state["copy"] = True
+            res.label("second_initialization_rejected")
         elif kind == "enter":
             if not insts or len(stack) >= 3:
                 continue
             idx = op[1] % len(insts)
             snap = flags()
             cm = edit_constant(insts[idx]["obj"])
-            cm.__enter__()
+            try:
+                cm.__enter__()
+            except _Boom:
+                # a watcher of the flag raised while the block was being entered: no block is open
+                res.label("edit_constant_entry_failed")
+                now = flags()
+                for key, v in snap.items():
+                    if now.get(key) != v:
+                        res.fail("C14.flag_not_restored", f"after {tag}: entering the block failed, constant flag of {key} was "
+                                                          f"{v!r} before and is {now.get(key)!r}")
+                check_held(tag)
+                continue
             if stack:
                 state["nested"] = True
                 res.label("nested_block")
@@ -483,7 +538,11 @@ def execute(case):
                 state["bad_exit"] = True
                 res.label("exceptional_exit")
             else:
-                cm.__exit__(None, None, None)
+                try:
+                    cm.__exit__(None, None, None)
+                except _Boom:
+                    state["bad_exit"] = True
+                    res.label("flag_watcher_raised_on_exit")
             now = flags()
             for key, v in snap.items():
                 if now.get(key) != v:
@@ -504,7 +563,10 @@ def execute(case):
     # close what is still open, normally, and check the final state
     while stack:
         cm, idx, snap = stack.pop()
-        cm.__exit__(None, None, None)
+        try:
+            cm.__exit__(None, None, None)
+        except _Boom:
+            pass
     check_held("end")
     # final probe: nothing can be rebound now
     for idx, rec in enumerate(insts):
